@@ -10,9 +10,9 @@ for d in "$@"; do
   git apply $d/patch.diff 2>/dev/null || { echo "$n APPLY-FAILED"; continue; }
   if cargo test --offline > /tmp/wt/verify-$n-suite.log 2>&1; then suite=pass; else suite=FAIL; fi
   mkdir -p tests && cp $d/demo.rs tests/demo.rs
-  if timeout 600 cargo test --offline --test demo > /tmp/wt/verify-$n-with.log 2>&1; then with=pass; else with=fail; fi
+  if timeout 600 cargo test --offline --features verif-hooks --test demo > /tmp/wt/verify-$n-with.log 2>&1; then with=pass; else with=fail; fi
   git checkout -q -- .
-  if timeout 600 cargo test --offline --test demo > /tmp/wt/verify-$n-without.log 2>&1; then without=pass; else without=fail; fi
+  if timeout 600 cargo test --offline --features verif-hooks --test demo > /tmp/wt/verify-$n-without.log 2>&1; then without=pass; else without=fail; fi
   rm -rf tests
   ok=NO; [ $suite = pass ] && [ $with = fail ] && [ $without = pass ] && ok=CONFIRMED
   echo "$n suite=$suite demo_with_patch=$with demo_without_patch=$without $ok"
